@@ -11,6 +11,7 @@ history:
     ['state', parent_path, name]              machine.add_states(<global name>)  (later, also nested)
     ['trans', e, src_path, dst_path|None]     machine.add_transition(e, src, dst)          (root scope)
     ['local', scope_path, e, src_rel, dst_rel]  with machine(<scope>): machine.add_transition(e, src, dst)
+    ['remove', e, src_path|None, dst_path|None]  machine.remove_transition(e, source, dest)   (global names; all scopes)
 """
 import copy
 import enum
@@ -22,7 +23,7 @@ from .helpers11 import (UserValue, make_model, machine_bound, outcome, err_code,
 
 SEGS = ['A', 'B', 'C', 'P', 'Q', 'a', 'b', 'c', '1', '2', 'x1']
 ROOT_EVENTS = ['go', 'run', 'stop']
-LOCAL_EVENTS = ['mid', 'inner', 'go']
+LOCAL_EVENTS = ['mid', 'inner', 'go', 'run']      # 'go' / 'run' also live in the root scope: one trigger, several scopes
 
 
 class HKnobs(object):
@@ -38,6 +39,7 @@ class HKnobs(object):
         self.p_local = 0.6
         self.max_steps = 8
         self.p_embed = 0.5        # a compound state's children come from an embedded HierarchicalMachine (own auto flag)
+        self.p_remove = 0.12       # remove_transition steps (a trigger may live in several scopes; often only part goes)
         self.p_enum = 0.0          # states given as nested Enum classes (member names shared between levels)
         self.__dict__.update(kw)
 
@@ -159,6 +161,12 @@ def gen_case(rng, kn):
         added.append(0)
     live = [list(p) for p in paths]
     for _ in range(rng.randint(2, kn.max_steps)):
+        if rng.random() < kn.p_remove:
+            e = rng.choice(ROOT_EVENTS + LOCAL_EVENTS)
+            src = rng.choice(live) if rng.random() < 0.55 else None
+            dst = rng.choice(live) if rng.random() < 0.3 else None
+            ops.append(['remove', e, src, dst])
+            continue
         r = rng.random()
         if r < 0.45:
             m = rng.choice(added)
@@ -304,6 +312,10 @@ class HRun(object):
             elif k == 'local':
                 _k, scope, e, src, dst = op
                 self.local_add(m, scope, e, self.sep.join(src), self.sep.join(dst))
+            elif k == 'remove':
+                _k, e, src, dst = op
+                m.remove_transition(e, source='*' if src is None else self.sep.join(src),
+                                    dest='*' if dst is None else self.sep.join(dst))
             return ('ok',)
         except BaseException as e:  # noqa
             return ('raised', type(e).__name__, str(e)[:120])
@@ -416,9 +428,10 @@ def parse_answer(ans, paths):
         d = {'is_access': c.lst(c.name), 'to_access': c.lst(c.name), 'is': bool(c.nat()), 'is_sub': bool(c.nat()),
              'triggers': c.lst(c.name), 'fires': c.lst(c.name)}
         out.append(d)
+    known = sorted(c.lst(c.name))
     if not c.done():
         raise common.MachineryError('c11hsm: trailing output')
-    return out
+    return out, known
 
 
 # ---------------------------------------------------------------------------------------------
@@ -491,7 +504,7 @@ def check_step(run, last_op, pending):
         orig = run.originals[i]
         user = {n: v for n, v in orig.items() if n != attr}
         qpaths, req = enc_request(run, obj)
-        obs = {'model': i, 'paths': qpaths, 'active': None, 'per_path': [dict() for _ in qpaths]}
+        obs = {'model': i, 'paths': qpaths, 'active': None, 'per_path': [dict() for _ in qpaths], 'known': sorted(events)}
         pending.append(('c11hsm', req, obs))
         act = active_paths(run, obj)
         obs['active'] = act
@@ -583,6 +596,12 @@ def check_step(run, last_op, pending):
                         ends_in=getattr(twin, attr))
                     break
             setattr(twin, attr, copy.deepcopy(cur))
+        # -- the event methods on the model are exactly the triggers the machine still knows in ANY scope: a method the
+        #    machine bound for a name no scope declares any more is stale (missing ones: `helper-missing` above)
+        stale = [n for n, v in vars(obj).items() if n not in user and isinstance(v, functools.partial) and
+                 getattr(v.func, '__name__', '') == 'trigger_event' and len(v.args) > 1 and v.args[1] not in events]
+        if stale:
+            bad('monitor', 'event-method-of-an-event-the-machine-no-longer-has', model=i, names=sorted(stale))
         if not auto:
             # without auto transitions nothing named to_<…> exists: no event in any scope (the histories declare none
             # themselves), no such helper on the model
@@ -755,7 +774,9 @@ def correspond(kind, obs, ans):
         model = [int(x) for x in ans.split()]
         return None if model == obs['kinds'] else ('wrapper_binding', {'names': obs['names'], 'impl': obs['kinds'],
                                                                         'model': model, 'op': obs['op']})
-    lean = parse_answer(ans, obs['paths'])
+    lean, known = parse_answer(ans, obs['paths'])
+    if 'known' in obs and obs['known'] != known:
+        return ('known_events', {'impl': obs['known'], 'model': known})
     for p, ob, lp in zip(obs['paths'], obs['per_path'], lean):
         for key, what in (('is_access', 'is_access_names'), ('to_access', 'to_access_names'), ('triggers', 'get_triggers'),
                           ('fires', 'fires')):
@@ -788,7 +809,7 @@ def run_case(case):
             pending.append(('c11wrap', wreq, {'names': names, 'kinds': [attr_kind(run.objs[op[1]], n) for n in names], 'op': op}))
         facts['steps'] += 1
         facts['fired'] += int(r == ('ret', True) or (op[0] == 'to' and r == ('ok',)))
-        if r[0] == 'raised' and op[0] in ('model', 'state', 'trans', 'local'):
+        if r[0] == 'raised' and op[0] in ('model', 'state', 'trans', 'local', 'remove'):
             # a valid reconfiguration call must not raise
             fails.append(('monitor', 'reconfiguration-raises', {'step': k, 'op': op, 'error': r[1:]},
                           'C11.nested.reconfiguration-raises'))
